@@ -56,6 +56,10 @@ def check(rep, tier, seed, replay):
     impl = core.run_harness(lines)
     model = core.run_driver(lines)
     mism = diff_streams(rep, lines, impl, model)
+    if mism:
+        from .deciders import cps_order_sensitive
+        mism, dropped = cps_order_sensitive(mism)
+        rep.cov["mismatches_not_compared_order_sensitive_near_limit"] = len(dropped)
     k = len(corpus)
     pairs = 0
     decided = set()
